@@ -40,6 +40,7 @@ type CfgPlan struct {
 	VerifyIncoming   bool `json:"verify_in"`
 	VerifyOutgoing   bool `json:"verify_out"`
 	NewTimeFormat    bool `json:"new_time,omitempty"`
+	AliveDel         bool `json:"alive_del,omitempty"` // install an AliveDelegate (accepts everything; a yield point when called without the node lock)
 }
 
 type Op struct {
@@ -172,6 +173,7 @@ type SimNode struct {
 	localState   []byte
 	mergeVeto    func(peers []*Node) error
 	aliveVeto    func(peer *Node) error
+	aliveCalls   atomic.Int64
 	pingPayload  []byte
 	pingDone     []string
 
@@ -348,6 +350,17 @@ func (d mergeDel) NotifyMerge(peers []*Node) error {
 type aliveDel struct{ n *SimNode }
 
 func (d aliveDel) NotifyAlive(p *Node) error {
+	// The library calls this delegate with the node lock held. If a change moves the call
+	// outside the lock, the callback becomes a preemption point: the TryLock succeeds only then,
+	// so on code that holds the lock nothing is parked (a goroutine parked with the lock held
+	// would stall the bubble).
+	if m := d.n.m; m != nil && !d.n.noYieldCb {
+		if m.nodeLock.TryLock() {
+			m.nodeLock.Unlock()
+			d.n.sim.yield("alivedel", d.n.name)
+		}
+	}
+	d.n.aliveCalls.Add(1)
 	if f := d.n.aliveVeto; f != nil {
 		return f(p)
 	}
@@ -448,6 +461,9 @@ func (c *Cluster) buildConfig(n *SimNode, cp CfgPlan) *Config {
 	conf.Events = &instEvents{n, n.gen}
 	conf.Delegate = n
 	conf.Merge = mergeDel{n}
+	if cp.AliveDel {
+		conf.Alive = aliveDel{n}
+	}
 	conf.Conflict = conflictDel{n}
 	conf.Ping = pingDel{n}
 	conf.DNSConfigPath = "/nonexistent"
